@@ -278,6 +278,11 @@ fn parse_version(s: &str) -> Version {
     }
 }
 
+thread_local! {
+    /// Set by `negotiate … vec=1`: the application writes its payload with vectored writes.
+    static VECTORED: std::cell::Cell<bool> = const { std::cell::Cell::new(false) };
+}
+
 pub type TaskOut = (String, Vec<u8>);
 pub type Task = Pin<Box<dyn Future<Output = TaskOut>>>;
 
@@ -288,7 +293,19 @@ async fn after<R: AsyncRead + AsyncWrite + Unpin>(
     mut io: super::Negotiated<R>,
     pay: Vec<u8>,
 ) -> TaskOut {
-    if let Err(e) = io.write_all(&pay).await {
+    if VECTORED.with(|v| v.get()) {
+        // same bytes through `poll_write_vectored` (one slice holding the rest of the payload, so
+        // the carrier sees the same sequence of writes as with `write_all`)
+        let mut off = 0;
+        while off < pay.len() {
+            let bufs = [std::io::IoSlice::new(&pay[off..])];
+            match io.write_vectored(&bufs).await {
+                Ok(0) => return ("err:app-write:write-zero".to_string(), Vec::new()),
+                Ok(n) => off += n,
+                Err(e) => return (format!("err:app-write:{}", io_kind(e.kind())), Vec::new()),
+            }
+        }
+    } else if let Err(e) = io.write_all(&pay).await {
         return (format!("err:app-write:{}", io_kind(e.kind())), Vec::new());
     }
     if let Err(e) = io.flush().await {
@@ -350,6 +367,7 @@ pub fn run_pair(
         (script(a.get("lr")), script(a.get("lw"))),
     );
     let tasks = vec![dialer(ed), listener(el)];
+    VECTORED.with(|v| v.set(a.get("vec") == Some(&"1")));
     let out = run(tasks, a.get("order").copied().unwrap_or("dl"), &shared);
     let show = |o: &Option<TaskOut>| match o {
         None => ("stuck".to_string(), "-".to_string()),
